@@ -151,15 +151,22 @@ def record_one(spec):
     beh.append({"e": "C", "spell": spec.get("spell", "?"), "large": large, "valid": True, "text": list(t_rgb),
                 "bg": list(b_rgb), "raised": "", "readable": readable, "comp": spec.get("comp") or {"kind": "none"}})
     wit_cache = {}
-    for mode, vr in spec.get("runs", ALL_RUNS):
+    for run in spec.get("runs", ALL_RUNS):
+        mode, vr = run[0], run[1]
+        show = bool(run[2]) if len(run) > 2 else False
         _CHAIN = [] if have_wrap else None
         raised = ""
         try:
-            ret = pair.make_readable(mode=mode, very_readable=vr)
+            if show:       # the console preview must not change what is returned (C06 / C17); its output is discarded here
+                import io, contextlib
+                with contextlib.redirect_stdout(io.StringIO()):
+                    ret = pair.make_readable(mode=mode, very_readable=vr, show=True)
+            else:
+                ret = pair.make_readable(mode=mode, very_readable=vr)
         except Exception as ex:
             ret, raised = None, type(ex).__name__
         chain_raw, _CHAIN = _CHAIN, None
-        ev = {"e": "F", "mode": mode, "vr": bool(vr), "raised": raised, "ok": False, "okbool": False, "shape": "other",
+        ev = {"e": "F", "mode": mode, "vr": bool(vr), "show": show, "raised": raised, "ok": False, "okbool": False, "shape": "other",
               "css": [], "lib": [], "de4": -1, "wit": [], "witDe4": -1, "witKind": "none", "chain": [], "haveChain": bool(have_wrap), "ref": []}
         if isinstance(ret, tuple) and len(ret) == 2:
             val, ok = ret
@@ -306,3 +313,40 @@ def isoluminant(rnd, tries=4000):
         if (la - lb) * (La - Lb) < 0:
             return a, b
     return saturated(rnd), saturated(rnd)
+
+
+def hairline(rnd, t, tries=60):
+    """a pair whose ratio lies within 0.005 BELOW the requirement t (rounding to two decimals would lift it onto t), or
+    within 0.005 above it: found by scanning a small cube of colours around the point where a grey line crosses t."""
+    for _ in range(tries):
+        bg = rand_colour(rnd)
+        lb = refs.wcag_lum(bg)
+        up = lb < 0.18
+        prev = None
+        for k in range(256):
+            g = k if up else 255 - k
+            r = refs.wcag_ratio((g, g, g), bg)
+            if r >= t:
+                centre = g
+                break
+        else:
+            continue
+        best = []
+        for dr in range(-5, 6):
+            for dg in range(-3, 4):
+                for db in range(-6, 7):
+                    c = (centre + dr, centre + dg, centre + db)
+                    if min(c) < 0 or max(c) > 255:
+                        continue
+                    r = refs.wcag_ratio(c, bg)
+                    if t - 0.005 <= r < t:
+                        best.append((c, "below"))
+                    elif t <= r < t + 0.004:
+                        best.append((c, "above"))
+        below = [c for c, w in best if w == "below"]
+        above = [c for c, w in best if w == "above"]
+        if below and (rnd.random() < 0.75 or not above):
+            return rnd.choice(below), bg
+        if above:
+            return rnd.choice(above), bg
+    return near_threshold(rnd, t, (-0.002, 0.002))
